@@ -82,7 +82,7 @@ Definition benign_run (i : input) (c : config) (args : list string) : bool :=
    C12_add_var_keeps_distinct, as a computed guard on the whole run) ---- *)
 Definition names_step_ok (cfg : rcfg) (r : registry) (sc : scope) (t : ty) : bool :=
   match populate cfg r (refs t) [] with
-  | Ok (r1, imps) => nodupb (map v_name (rename_for_imports (sc_vars sc) (map (imp_qualifier r1) imps)))
+  | Ok (r1, imps) => nodupb (map v_name (rename_for_imports (sc_vars sc) (var_quals r1 imps)))
   | _ => true
   end.
 
